@@ -157,7 +157,9 @@ void prop(Src& s, Ctx& ctx) {
             VCHECK(ctx, false, "C03:reparse-rejected:rfc4884-length-counts-padding-that-is-not-emitted", chain << ": libtins rejects its own serialisation y=" << hex(y, 1024) << " | " << origin);
             return;
         }
-        VCHECK(ctx, false, std::string(only_padding ? "C03:reparse-rejected-only-with-ethernet-padding:" : "C03:reparse-rejected:") + chain,
+        // padding-induced rejections are named by the innermost layer (the one that mis-reads the padding), others by the chain
+        std::string innermost = chain.substr(chain.rfind('/') == std::string::npos ? 0 : chain.rfind('/') + 1);
+        VCHECK(ctx, false, only_padding ? "C03:reparse-rejected-only-with-ethernet-padding:" + innermost : "C03:reparse-rejected:" + chain,
                chain << ": libtins rejects its own serialisation y=" << hex(y, 1024) << " | " << origin);
         return;
     }
